@@ -100,6 +100,12 @@ func (p *Prog) modArrays(fc *FuncContract, m string) []string {
 		}
 		return ""
 	}
+	if T := resolveTypeIn(p, pk, base); T != nil {
+		if _, ok := T.Underlying().(*types.Interface); ok && fname == "*" {
+			return p.implFieldArrays(T)
+		}
+		return fieldArrays(T, fname)
+	}
 	// path like x.a.b : resolve type through fields
 	parts := strings.Split(base, ".")
 	tsrc := lookup(parts[0])
